@@ -299,20 +299,23 @@ package tree
 //@   requires n != nil && n.handlers != nil && n.root != nil && n.root.optionsBuilder != nil && n.root.methodNotAllowedBuilder != nil && n.root.node != nil && n.root.methods != nil
 //@   requires (in("HEAD", n.handlers) <==> in("GET", n.handlers)) && (n.root.hasTrace ==> !in("TRACE", n.handlers))
 //@   ensures [C17] err-unchanged: result != nil ==> dom(n.handlers) == old(dom(n.handlers)) && vals(n.handlers) == old(vals(n.handlers)) && n.methodIndex == old(n.methodIndex)
-//@   ensures [C08,C17] reserved-rejected: (exists i int :: 0 <= i && i < len(methods) && reserved(n, methods[i])) ==> result != nil
-//@   ensures [C08,C17] unknown-rejected: (exists i int :: 0 <= i && i < len(methods) && bit(methods[i]) == 0) ==> result != nil
-//@   ensures [C17] duplicate-rejected: (exists i int :: 0 <= i && i < len(methods) && old(in(methods[i], n.handlers))) ==> result != nil
-//@   ensures [C17] repeated-rejected: (exists i int, j int :: 0 <= j && j < i && i < len(methods) && methods[i] == methods[j]) ==> result != nil
+// (success implies every method was acceptable: the contrapositive of "an unacceptable method is rejected")
+//@   ensures [C08,C17] reserved-rejected: result == nil ==> (forall i int :: 0 <= i && i < len(methods) ==> !reserved(n, methods[i]))
+//@   ensures [C08,C17] unknown-rejected: result == nil ==> (forall i int :: 0 <= i && i < len(methods) ==> bit(methods[i]) != 0)
+//@   ensures [C17] duplicate-rejected: result == nil ==> (forall i int :: 0 <= i && i < len(methods) ==> !old(in(methods[i], n.handlers)))
+//@   ensures [C17] repeated-rejected: result == nil ==> (forall i int, j int :: 0 <= j && j < i && i < len(methods) ==> methods[i] != methods[j])
 //@   ensures [C08] installed: result == nil ==> (forall i int :: 0 <= i && i < len(methods) ==> in(methods[i], n.handlers))
 //@   ensures [C08] head-with-get: result == nil ==> (in("HEAD", n.handlers) <==> in("GET", n.handlers))
 //@   ensures [C08,C05] automatic: result == nil ==> in("OPTIONS", n.handlers) && in("", n.handlers)
 //@   ensures [C18,C04] no-manual-trace: result == nil ==> (n.root.hasTrace ==> !in("TRACE", n.handlers))
 //@   ensures [C08] nothing-lost: result == nil ==> (forall k string :: old(in(k, n.handlers)) ==> in(k, n.handlers))
+//@   cut tree.node.buildMethods 1 [C08] installed-before-recount: forall i int :: 0 <= i && i < len(methods) ==> in(methods[i], n.handlers)
 //@   inv 1 [C17] bound: -1 <= rangeindex && rangeindex < len(methods)
 //@   inv 1 [C17] validated: forall i int :: 0 <= i && i <= rangeindex ==> !reserved(n, methods[i]) && bit(methods[i]) != 0 && !in(methods[i], n.handlers) &&
 //@        (forall j int :: 0 <= j && j < i ==> methods[j] != methods[i])
 //@   inv 2 [C08] bound: -1 <= rangeindex && rangeindex < len(methods) && n.handlers == old(n.handlers) && n.handlers != nil
-//@   inv 2 [C17] all-valid: forall i int :: 0 <= i && i < len(methods) ==> !reserved(n, methods[i]) && bit(methods[i]) != 0
+//@   inv 2 [C17] all-valid: forall i int :: 0 <= i && i < len(methods) ==> !reserved(n, methods[i]) && bit(methods[i]) != 0 && !old(in(methods[i], n.handlers)) &&
+//@        (forall j int :: 0 <= j && j < i ==> methods[j] != methods[i])
 //@   inv 2 [C08] so-far: (forall i int :: 0 <= i && i <= rangeindex ==> in(methods[i], n.handlers)) && (forall k string :: old(in(k, n.handlers)) ==> in(k, n.handlers))
 //@   inv 2 [C08] head: (in("HEAD", n.handlers) <==> in("GET", n.handlers)) && (n.root.hasTrace ==> !in("TRACE", n.handlers))
 
